@@ -3,6 +3,7 @@ import os
 import re
 
 from .. import common
+from . import c01_term
 
 PASS_CAP = 40
 PASSES_RE = re.compile(rb"^\s*(\d+) pass(?:es)?\s*$", re.M)
@@ -344,7 +345,7 @@ def map_symbols(text):
 
 def run(args):
     res = common.Result("C01", args.tier, args.seed, "proof")
-    bdir, audit, proof_problems = common.standard_setup(res, "C01", ["Widths"])
+    bdir, audit, proof_problems = common.standard_setup(res, "C01", ["Widths", "PassConsts"])
     if bdir is None:
         return res.finish()
     rng = common.rng_for(args.seed, "C01")
@@ -597,15 +598,26 @@ def run(args):
             for x in (p, p2, p[:-2] + ".h", p2[:-2] + ".h"):
                 if os.path.exists(x):
                     os.unlink(x)
-    total = nB + nC + dist["corpus_extra_pass"]
+        # ---- EQU chains, number of passes, termination (vlib/props/c01_term.py, driver mode c01t)
+        tp = c01_term.run_part(args, bdir, wd)
+        spec_fail += tp["spec_fail"]
+        corr_fail += tp["corr_fail"]
+        proof_problems += tp["problems"]
+        distinct |= tp["distinct"]
+        dist["equ_termination"] = tp["dist"]
+        samples += tp["samples"]
+    total = nB + nC + dist["corpus_extra_pass"] + tp["evaluations"]
     res.coverage = common.proof_coverage(audit, "C01", [
         "hook H1 in as.c (pass cap, forced extra pass) - guarded by ASL_VERIF",
         "correspondence: real asl vs Model.Pass on 6502 (direct/absolute choice) and 68000 (padding) programs",
-        "resolution oracle: marker bytes + per-target mini decoders for lda/jmp/bra/data words (python harness)"])
+        "resolution oracle: marker bytes + per-target mini decoders for lda/jmp/bra/data words (python harness)",
+        "translate/tables.py gen_passconsts (MaxSymPass / first PassNo after AsmDefInit, dumper linked with the assembler's objects)",
+        "correspondence: real asl vs Model.Pass2 (EQU expressions, pass count, reject in pass 2) on 6502 and 68000; listing parser for line addresses and symbol values (python harness)"])
     res.coverage.update(evaluations=total, distinct_nontrivial=len(distinct),
-                        rule="(B) random label/reference/filler programs in the model's statement language rendered for 6502 and 68000, filler sizes around the 255/256 threshold; (C) programs over 6502/6809/68HC11/68000/8086 with marker bytes after each label and before each reference, distances around 127/128/255/256, each assembled normally and with one forced extra pass; (corpus) golden sources with a forced extra pass; distinct by program text",
+                        rule="(B) random label/reference/filler programs in the model's statement language rendered for 6502 and 68000, filler sizes around the 255/256 threshold; (C) programs over 6502/6809/68HC11/68000/8086 with marker bytes after each label and before each reference, distances around 127/128/255/256, each assembled normally and with one forced extra pass; (corpus) golden sources with a forced extra pass; (EQU) forward/backward/reordered EQU chains of length 0..12 with offsets and the PC symbol, mixed label/EQU/use programs, zero-page threshold shapes and operands falling with a rising label, on 6502 and 68000, compared in status, pass count, end address, operands, symbol values and checked against Spec.Pass2; distinct by program text, non-trivial = at least one EQU over another symbol",
                         samples=samples, distribution=dist)
-    res.assumptions = ["termination is decided by search under a cap of %d passes (theorem C01_fixpoint_at_exit is conditional on loop exit)" % PASS_CAP,
+    res.assumptions = ["termination is decided by search under a cap of %d passes for value-dependent sizes (theorems: C01_term_const_sizes / C01_term_backward prove it for value-independent sizes and for programs without forward reference; C01_oscillation_example disproves it in general; C01_fixpoint_at_exit(_equ) is conditional on loop exit)" % PASS_CAP,
+                       "EQU part: operands are kept inside the range of their data word in every pass (range errors are outside Model.Pass2), each symbol is defined once, SET is not modelled",
                        "mini decoders cover only the instruction forms the generator emits"]
     return common.conclude(res, proof_problems, spec_fail, corr_fail, total)
 
